@@ -41,6 +41,9 @@ def shuffle(x):
         from .core import PathAbort
 
         raise PathAbort("precondition false")
+    policy = getattr(ctx, "shuffle_policy", None)
+    if policy is not None and ctx.mode == "sym":
+        policy(ctx, orig, ps, rec)  # harness-declared reduction of the permutation space (recorded as an assumption)
     new = [select(orig, p) for p in ps]
     x[:] = new
     rec["perm"] = ps
